@@ -192,7 +192,7 @@ def ctrUpdate (w : World) (h : Option Handle) (argNull : Bool) (needArg : Bool)
         if r = 0 then pure (w, 0) else pure (w.setVal id v, r)
 
 def resetStream (f : Family) (be : Backend) (st : CtrState) : CtrState :=
-  { st with offset := f.batch be * f.bs }
+  st.reset f.bs (f.batch be) (be != .generic)
 
 def junkOf (w : Nat) (pat : UInt8) : BitVec w := image w (List.replicate (w / 8 + 1) pat)
 
@@ -292,10 +292,10 @@ def ctrEncryptCall (bd : Build) (f : Family) (w : World) (h : Option Handle) (in
         let B := f.batch be
         match a.val with
         | .skinnyCtr hh kt st =>
-          let (st', out) := ctrEncrypt (ctrBlockFn bd a.val) f.bs B st data
+          let (st', out) := ctrEncrypt (ctrBlockFn bd a.val) f.bs B (be != .generic) st data
           pure (w.setVal id (.skinnyCtr hh kt st'), 1, out)
         | .mantisCtr ks st =>
-          let (st', out) := ctrEncrypt (ctrBlockFn bd a.val) f.bs B st data
+          let (st', out) := ctrEncrypt (ctrBlockFn bd a.val) f.bs B (be != .generic) st data
           pure (w.setVal id (.mantisCtr ks st'), 1, out)
         | _ => .error .wildFree
 
